@@ -73,6 +73,9 @@ func (lr *listRun) one(ls *listStats, keyState string, key []byte, offset, limit
 			it, found := byIdent[id]
 			if !found {
 				ls.failures = append(ls.failures, monFailure{Property: "C20", What: fmt.Sprintf("%s returned an item that is not stored: %s", lr.name, id)})
+				if strings.HasPrefix(lr.name, "streams") {
+					ls.failures = append(ls.failures, monFailure{Property: "C18", What: fmt.Sprintf("%s lists a stream with a (receiver|sender) pair no stream was created with: %s", lr.name, id)})
+				}
 				ks = append(ks, "999999999")
 				continue
 			}
@@ -80,6 +83,9 @@ func (lr *listRun) one(ls *listStats, keyState string, key []byte, offset, limit
 			if it.point != texts[i] {
 				ls.pointMismatch++
 				ls.failures = append(ls.failures, monFailure{Property: "C20", What: fmt.Sprintf("%s: listed item %s differs from the point query: %s vs %s", lr.name, id, texts[i], it.point)})
+				if strings.HasPrefix(lr.name, "streams") {
+					ls.failures = append(ls.failures, monFailure{Property: "C18", What: fmt.Sprintf("%s: stream %s is listed differently from what is stored for that pair", lr.name, id)})
+				}
 			}
 		}
 		nk := "None"
@@ -430,6 +436,7 @@ func cmdLists(args []string) {
 	n := fs.Int("n", 6, "number of histories (states)")
 	blocks := fs.Int("blocks", 14, "blocks per history")
 	per := fs.Int("shard", 600, "cases per Coq file")
+	only := fs.String("only", "", "run only the list queries whose name starts with this (e.g. streams)")
 	fs.Parse(args)
 	seed := seedFromEnv()
 	ls := &listStats{kinds: map[string]int{}}
@@ -447,6 +454,9 @@ func cmdLists(args []string) {
 		hashBefore := fmt.Sprintf("%X", c.app.LastCommitID().Hash)
 		exportBefore := moduleExport(c)
 		for _, lr := range listRuns(c, ctx, r) {
+			if *only != "" && !strings.HasPrefix(lr.name, *only) {
+				continue
+			}
 			sizes[fmt.Sprintf("%s:%d items", strings.Split(lr.name, "(")[0], len(lr.items))]++
 			lr.battery(ls, r, &items)
 		}
